@@ -95,8 +95,13 @@ impl Sched {
 
     fn record(&mut self, id: usize, was_choice: bool) {
         let id32 = id as u32;
+        let full = self.out.trace.len() >= 4_000_000;
         match self.out.trace.last_mut() {
             Some((t, c)) if *t == id32 => *c += 1,
+            _ if full => {
+                // keep memory bounded on pathological runs; such a trace cannot be replayed exactly
+                self.out.diverged = true;
+            }
             _ => {
                 self.out.trace.push((id32, 1));
                 self.out.switches += 1;
@@ -201,6 +206,10 @@ impl Scheduler for Sched {
                     sorted.sort();
                     *sorted.iter().find(|&&x| c != usize::MAX && x > c).unwrap_or(&sorted[0])
                 }
+                // strict priorities starve everything below a task that never blocks (an
+                // unlimited search); past the window that holds the change points the
+                // schedule becomes fair again, as any real scheduler is
+                Strategy::Pct { len, .. } if self.out.steps > 2 * len as u64 + 1000 => self.cands[self.rng.below(self.cands.len() as u64) as usize],
                 Strategy::Pct { .. } => {
                     while let Some(&cp) = self.change_points.first() {
                         if cp <= self.out.steps {
